@@ -19,6 +19,8 @@
 //!   `=> text <bytes> <fnv1a-64 hex> <first 48 bytes>|<last 48 bytes>` for display/debug/string,
 //!   `=> hash ok`, `=> eq <bool>`, `=> taken`, `=> released`.
 //! The last line is `=== end` — its absence means the process died (the exit status says how).
+//!
+//!   c18 batch <main|thread:N> <seconds>   many programs (separated by `;;;===`) in one process, see `batch` below
 use std::hash::{Hash, Hasher};
 use std::io::{Read, Write};
 use std::panic::{catch_unwind, AssertUnwindSafe};
@@ -157,12 +159,7 @@ fn run_all(src: String) {
     say("=== end");
 }
 
-fn main() {
-    let args: Vec<String> = std::env::args().collect();
-    let mode = args.get(1).cloned().unwrap_or_else(|| "main".to_string());
-    let mut src = String::new();
-    std::io::stdin().read_to_string(&mut src).unwrap();
-    std::panic::set_hook(Box::new(|_| {}));
+fn run_on(mode: &str, src: String) {
     if let Some(bytes) = mode.strip_prefix("thread:") {
         let n: usize = bytes.parse().expect("thread:<bytes>");
         let h = std::thread::Builder::new()
@@ -174,5 +171,57 @@ fn main() {
         }
     } else {
         run_all(src);
+    }
+}
+
+/// `c18 batch <mode> <seconds>`: programs separated by a line `;;;===`, each on a fresh engine, framed by
+/// `=== begin <k>` … `=== end` (from run_all) … `=== done <k>`.  A watchdog ends the process (exit 3, after printing
+/// `=== timeout <k>`) when one program runs longer than <seconds>; the caller restarts after <k>.
+fn batch(mode: String, secs: u64, src: String) {
+    use std::sync::atomic::{AtomicU64, Ordering};
+    use std::sync::Arc;
+    let started = Arc::new(AtomicU64::new(0)); // (index + 1) << 32 | seconds since start of the batch
+    let t0 = std::time::Instant::now();
+    {
+        let started = started.clone();
+        std::thread::spawn(move || loop {
+            std::thread::sleep(std::time::Duration::from_millis(100));
+            let v = started.load(Ordering::SeqCst);
+            if v == 0 {
+                continue;
+            }
+            let idx = (v >> 32) - 1;
+            let at = v & 0xffff_ffff;
+            if t0.elapsed().as_secs() > at + secs {
+                say(&format!("\n=== timeout {}", idx));
+                std::process::exit(3);
+            }
+        });
+    }
+    for (k, prog) in src.split("\n;;;===\n").enumerate() {
+        if prog.trim().is_empty() {
+            continue;
+        }
+        say(&format!("=== begin {}", k));
+        started.store(((k as u64 + 1) << 32) | t0.elapsed().as_secs(), Ordering::SeqCst);
+        run_on(&mode, prog.to_string());
+        started.store(0, Ordering::SeqCst);
+        say(&format!("=== done {}", k));
+    }
+    say("=== batch end");
+}
+
+fn main() {
+    let args: Vec<String> = std::env::args().collect();
+    let mode = args.get(1).cloned().unwrap_or_else(|| "main".to_string());
+    let mut src = String::new();
+    std::io::stdin().read_to_string(&mut src).unwrap();
+    std::panic::set_hook(Box::new(|_| {}));
+    if mode == "batch" {
+        let m = args.get(2).cloned().unwrap_or_else(|| "main".to_string());
+        let secs: u64 = args.get(3).and_then(|s| s.parse().ok()).unwrap_or(10);
+        batch(m, secs, src);
+    } else {
+        run_on(&mode, src);
     }
 }
